@@ -52,7 +52,10 @@ CHECKS = {
              "including refused, hook-aborted and half-rolled-back calls; C01_history by induction over histories; the "
              "statement's clauses as corollaries of Inv; inv_b (evaluated on observed link maps) <-> Inv; C01_assertions: "
              "under Inv a run with ANYTREE_ASSERTIONS on is the same run as with it off - every call, any fault oracle, "
-             "any fuel (relational Hoare logic over the setter monad, Proofs/MutAssert.v). Tie: every forest <= 3 nodes "
+             "any fuel (relational Hoare logic over the setter monad, Proofs/MutAssert.v); C01_forest_partition / "
+             "C01_forest_after_every_history: under Inv - hence after every history - each node lies in the unfolding "
+             "(tree_of) of exactly one parentless node, the unfolding is closed under children and stays inside one tree. "
+             "Tie: every forest <= 3 nodes "
              "x every call x 5 classes x all single fault positions / persistent vetoes / sampled doubles x "
              "ANYTREE_ASSERTIONS 0/1 + random live histories, a sixth of the cases on node classes with user-defined "
              "__eq__/__bool__/__len__/__hash__; observed maps compared with the model and fed to inv_b.",
